@@ -4,7 +4,8 @@ import gen_sigstore
 FAMILY = "sigstore"
 TRACE_SPEC = "Trace_SigStore"
 # C11 / C15 do not apply: the stores implement neither MemSize nor (de)serialisation
-PROPS = ["C18", "C12"]
+# C16: "the shard index equals the signature's high bits used by the signature store" is decided on the store side here
+PROPS = ["C18", "C12", "C16"]
 
 ITER = ["MC_SigStore.MCPush", "MC_SigStore.MCInto", "MC_SigStore.MCIterBorrowed", "MC_SigStore.MCIterConsuming", "MC_SigStore.MCNextEqual",
         "MC_SigStore.MCNextAggregate", "MC_SigStore.MCNextSplit", "MC_SigStore.MCNextSplitCross"]
@@ -12,6 +13,9 @@ ITER = ["MC_SigStore.MCPush", "MC_SigStore.MCInto", "MC_SigStore.MCIterBorrowed"
 
 def mc(prop, tier):
     q = tier == "quick"
+    if prop == "C16":
+        return [("MC_SigStore", "MC_SigStore_cross.cfg", ["MC_SigStore.MCNextSplit", "MC_SigStore.MCNextSplitCross",
+                                                          "MC_SigStore.MCNextAggregate"])]
     if prop == "C12":
         # the documented panic of into_shard_store and every bounds-checked access of the transcription
         return [("MC_SigStore", "MC_SigStore_c12.cfg" if q else "MC_SigStore_partial.cfg",
@@ -29,6 +33,8 @@ def exports(prop, tier):
     q = tier == "quick"
     if prop == "C12":
         return []
+    if prop == "C16":
+        return [("tlc", "MC_SigStore", "MC_SigStore_export2.cfg")]
     if q:
         return [("tlc", "MC_SigStore", "MC_SigStore_export2.cfg"),
                 ("tlc-partial", "MC_SigStore", "MC_SigStore_export_partial.cfg")]
@@ -47,6 +53,11 @@ def episodes(prop, tier, seed):
         out["release"] = (gen_sigstore.triple_episodes(seed + 1, rounds=1 if q else 3, large_every=40 if q else 9)
                           + gen_sigstore.buffer_episodes(seed + 1, 8 if q else 60)
                           + gen_sigstore.small_random_episodes(seed + 1, 200 if q else 3000), "release")
+    if prop == "C16":
+        # every (bucket bits, shard bits, max shard bits) triple, in memory and on disk, skewed high bits (empty
+        # buckets and shards): the k-th shard handed out holds exactly the signatures whose high bits are k
+        out["triples"] = (gen_sigstore.triple_episodes(seed + 5, rounds=1 if q else 3), "verif")
+        out["small"] = (gen_sigstore.small_random_episodes(seed + 5, 300 if q else 3000), "verif")
     if prop == "C12":
         out["ood"] = (gen_sigstore.ood_episodes(seed, 400 if q else 4000)
                       + gen_sigstore.sigval_episodes(seed + 2, 40 if q else 400), "verif")
